@@ -103,6 +103,7 @@ Part 12: the DESCRIBED field itself carries a wrapper or modifier.
 """
 import copy
 import itertools
+import json
 import os
 import pickle
 import time
@@ -116,7 +117,7 @@ EXHAUSTIVE = {"quick": True, "thorough": True}
 MIN_NONTRIVIAL = 50
 SHARD_TIMEOUT = {"quick": 120, "thorough": 900}
 REQUIRED = (
-    "reads_compared", "packs_compared", "packs_explicit_inconsistent", "packs_explicit_consistent",
+    "reads_compared", "packs_compared", "packs_explicit_inconsistent", "packs_explicit_consistent", "mixed_code_path_histories_packgen", "mixed_code_path_histories_unpackgen",
     "packs_auto", "packs_auto_after_tracked_change", "reads_after_unpack_before_assignment",
     "deletes_while_explicit", "sets_while_explicit", "dict_checks", "two_packet_histories",
     "classes_generic_code", "classes_generated_code", "described_field_in_vectorised_run",
@@ -1851,6 +1852,51 @@ def sampled_two_packet_history(rng, lo, hi, alphabet=None):
     return tuple(ops)
 
 
+MIXED_OPTSETS = [
+    ("packgen", "{'generate_for_unpack': False}"),     # generated pack code, field loop for unpack
+    ("unpackgen", "{'generate_for_pack': False}"),     # field loop for pack, generated unpack code
+]
+
+
+def mixed_code_path_histories(run, scratch, quick, states):
+    """Part 13: one direction generated, the other one interpreted (the remaining two of the four generate_for_* combinations):
+    whatever keeps automatic fields in step with their hidden slot must be in the code of the direction that is running.
+    Every variant, every start, all pure histories up to length 2 (3 in the thorough tier) plus the fixed script."""
+    import itertools
+    from bisturi.packet import Packet
+    from .. import render
+    st = Stats()
+    for v in VARIANTS:
+        for optname, optsrc in MIXED_OPTSETS:
+            cname, src = class_source(v, optname, optsrc)
+            module, path = render.load_source(src, scratch)
+            cls = getattr(module, cname)
+            gp = cls.pack_impl is not Packet.pack_impl
+            gu = cls.unpack_impl is not Packet.unpack_impl
+            if (gp, gu) != ((True, False) if optname == "packgen" else (False, True)):
+                run.inconclusive_because("option set %r did not give exactly one generated direction for %s" % (optname, cname))
+                continue
+            ctx = Ctx(cls, v, optname, src)
+            run.cover("classes", "%s/%s" % (v["name"], optname))
+            n_exec = 0
+            for start in starts_for(v):
+                histories = [tuple((0, o) for o in ("T1",) + SCRIPT_TAIL)]
+                for n in range(1, (2 if quick else 3) + 1):
+                    histories.extend(tuple((0, o) for o in h) + ((0, "PK"),) for h in itertools.product(ctx.ops, repeat=n))
+                for ops in histories:
+                    run.case(key="13|%s|%s|%s" % (cname, json.dumps(start, default=repr, sort_keys=True), ",".join(o for _, o in ops)), nontrivial=True)
+                    n_exec += 1
+                    bad = execute(ctx, [start], ops, "pure", st, states)
+                    if bad is not None:
+                        run.violation(bad[0], _witness(ctx, [start], ops, "pure", bad[1]), None)
+                        if run.counters["violations"] > 20:
+                            st.flush(run)
+                            return
+            run.count("mixed_code_path_histories", n_exec)
+            run.count("mixed_code_path_histories_%s" % optname, n_exec)
+    st.flush(run)
+
+
 def run(run):
     shard, nshards = run.shard
     quick = run.tier == "quick"
@@ -2241,6 +2287,8 @@ def run(run):
                     for name in OD_PATH_COUNTERS:
                         run.count(name.replace("optional_described_", "optional_described_%s_" % path, 1), c.get(name, 0))
             ps.flush(run)
+        if shard == 0 and not over_budget():
+            mixed_code_path_histories(run, scratch, quick, states)
         for s in states:
             run.cover("model_state_x_operation", "explicit=%s consistent=%s tracked_len=%d op=%s" % s)
         if shard == 0:
